@@ -161,6 +161,34 @@ def run(ctx):
         if not np.allclose(zh, eh, rtol=0, atol=1e-9) or abs(zh[-1] - 1) > 1e-9 or np.abs(zh).max() > 1 + 1e-9:
             ctx.violation({'kind': 'high-order-radial-polynomial', 'n': n_h},
                           {'j': j_h, 'rho': [float(x) for x in xs], 'expected': eh, 'observed': zh}, case=None)
+    # ---- 2c. zero OUTSIDE the mask means zero: a small aperture in a large array puts the far samples at rho of several hundred, where
+    # rho**n overflows for orders in the eighties and beyond; and coordinates supplied by the caller may be undefined (NaN) where there
+    # is no aperture.  Neither may leak NaN / inf into the samples outside the mask
+    import warnings as _w
+    small = np.zeros((512, 512))
+    small[255:258, 256] = small[256, 255:258] = 1
+    for j_big in ((5887, 6000) if q else (5887, 6000, 7000, 9000)):
+        ctx.case(('outside-the-mask', j_big))
+        with _w.catch_warnings():
+            _w.simplefilter('ignore')
+            zb = np.asarray(lentil.zernike(small, j_big, normalize=bool(j_big % 2)), dtype=float)
+        nbad = int((~np.isfinite(zb)).sum() + (zb[small == 0] != 0).sum())
+        if nbad or not np.all(np.isfinite(zb[small != 0])):
+            ctx.violation({'kind': 'not-zero-outside-the-mask', 'coordinates': 'default', 'order': 'high'},
+                          {'j': j_big, 'mask': '5-sample plus in 512x512', 'samples_outside_not_zero_or_not_finite': nbad}, case=None)
+    mk_n = np.zeros((6, 7))
+    mk_n[1:5, 2:6] = 1
+    rho_n, th_n = lentil.zernike_coordinates(mk_n)
+    rho_n, th_n = np.where(mk_n != 0, rho_n, np.nan), np.where(mk_n != 0, th_n, np.nan)
+    for j_n in (2, 3, 4, 7, 11):
+        ctx.case(('outside-the-mask-nan-coordinates', j_n))
+        with _w.catch_warnings():
+            _w.simplefilter('ignore')
+            zn = np.asarray(lentil.zernike(mk_n, j_n, rho=rho_n, theta=th_n), dtype=float)
+            zr = np.asarray(lentil.zernike(mk_n, j_n), dtype=float)
+        if not (np.all(zn[mk_n == 0] == 0) and np.allclose(zn[mk_n != 0], zr[mk_n != 0], rtol=1e-12, atol=1e-12)):
+            ctx.violation({'kind': 'not-zero-outside-the-mask', 'coordinates': 'undefined-outside-the-mask', 'order': 'low'},
+                          {'j': j_n, 'outside': zn[mk_n == 0][:6]}, case=None)
     # ---- 3. orthonormality over the unit disk by exact quadrature (numeric leaf) -----------------------------------------------
     gl_x, gl_w = np.polynomial.legendre.leggauss(20)
     r_nodes = 0.5 * (gl_x + 1)
